@@ -245,8 +245,12 @@ class Question(object):
             if error is not None:
                 self._write_error(io, error)
 
+            # Only an invalid answer is worth another attempt: errors raised while
+            # asking (e.g. "Aborted" at the end of the input) end the dialogue.
+            answer = interviewer()
+
             try:
-                return self._validator(interviewer())
+                return self._validator(answer)
             except Exception as e:
                 error = e
 
